@@ -472,6 +472,19 @@ impl ContinuityStore {
             return Ok(events);
         }
 
+        // The sidecar is rewritten under the seq lock. Appenders hold it from the log append to
+        // the cache append; a rewrite from a snapshot of the log taken outside the lock would
+        // drop the lines they added in between, and later readers would trust the stale sidecar.
+        let _seq_guard = self.next_seq.lock().expect("continuity seq mutex");
+        // An append that was in flight during the first read has finished by now.
+        if let Ok(Some(events)) = self.stream_cache.try_replay(continuity_id) {
+            return Ok(events);
+        }
+        self.replay_events_from_log_locked(continuity_id)
+    }
+
+    /// Answers from the truth log and rebuilds the sidecar caches. The caller holds the seq lock.
+    fn replay_events_from_log_locked(&self, continuity_id: &str) -> io::Result<Vec<Event>> {
         let events = self
             .event_log
             .replay_stream(StreamKind::Continuity, continuity_id)?;
@@ -3648,7 +3661,11 @@ impl ContinuityStore {
             return Ok(last_seq.saturating_add(1));
         }
 
-        let events = self.replay_events(continuity_id)?;
+        // (The caller holds the seq lock.)
+        let events = match self.stream_cache.try_replay(continuity_id) {
+            Ok(Some(events)) => events,
+            _ => self.replay_events_from_log_locked(continuity_id)?,
+        };
         let last = events.last().ok_or_else(|| {
             io::Error::new(io::ErrorKind::NotFound, "continuity stream does not exist")
         })?;
